@@ -33,6 +33,8 @@ ASSUMPTIONS = [
     "or '\"'",
     "the compiler may name components as it likes: components are matched to leaf steps through a unique tag in their "
     "arguments; only uniqueness of (stage, name) is required",
+    "step names that end in a digit and instantiate a component: either a correct compilation or a located "
+    "DSLInvalidError is accepted (the model accepts such names, FlowIR reserves trailing digits for replicas)",
     "no replicate/aggregate attributes, no key outputs / interface, no input./data. entry parameters",
     "a compile that runs longer than 6 s for a <=8-step namespace is reported as a hang",
     "'lists the offending locations': every underlying error of DSLInvalidError must be a DSLInvalidFieldError; an "
@@ -110,8 +112,9 @@ _ROMAN = re.compile(r"-[IVX]+$")
 
 def step_name_class(doc) -> str:
     """Independent predicate on the input used to key crash signatures by root cause: which kind of unusual (but
-    schema-valid) step names does the namespace contain?"""
-    names = [n for w in doc.get("workflows", []) for n in w.get("steps", {})]
+    schema-valid) names do the steps that instantiate components have?"""
+    comps = {c["signature"]["name"] for c in doc.get("components", [])}
+    names = [n for w in doc.get("workflows", []) for n, t in w.get("steps", {}).items() if t in comps]
     out = []
     if any(_ROMAN.search(n) for n in names):
         out.append("step-named-like-dedup-suffix")
@@ -137,6 +140,7 @@ def _record_unshrunk(ctx: Ctx, sub: str, v: Violation):
 
 
 def check_valid(case, ctx: Ctx):
+    import experiment.model.errors as E
     flat, doc, meta = case["flat"], case["doc"], case["meta"]
     if "valid-namespace-hangs" in ctx.excluded and not ctx.replaying:
         ctx.rec.excluded["valid-namespace-hangs"] += 1
@@ -146,6 +150,12 @@ def check_valid(case, ctx: Ctx):
     if kind == "model":
         raise Violation("valid-namespace-rejected-by-model", "%s\n%s" % (str(res)[:600], where))
     if kind == "dsl":
+        if "step-name-ends-in-digit" in step_name_class(doc) and res.underlying_errors and all(
+                isinstance(e, E.DSLInvalidFieldError) and len(e.location) > 0 for e in res.underlying_errors):
+            # FlowIR gives trailing digits of component names a meaning (replica index) and the DSL forbids them for
+            # component templates; whether a *step* may end in a digit is not stated: a located rejection is accepted
+            ctx.rec.label("v:digit-step-name-rejected-with-location")
+            return
         raise Violation("valid-namespace-rejected", "DSLInvalidError %s\n%s" % (str(res.errors())[:900], where))
     if kind == "hang":
         return _record_unshrunk(ctx, "valid", Violation("valid-namespace-hangs", "no result after %d s\n%s" % (
